@@ -14,6 +14,8 @@ PRE = ("From DV Require Import Prelude.Base Model.Wire Model.Obs Model.Msg Gen.G
 IDS = [0, 1, 0x7fffffff, 0x80000000, 0xffffffff]
 
 
+NODE_HOST, NODE_REALM = "Srv1.Example.NET", "Example.NET"
+
 def hdr_tuple(h):
     return (h.version, h.length, h.command_flags, h.command_code, h.application_id,
             h.hop_by_hop_identifier, h.end_to_end_identifier)
@@ -55,7 +57,7 @@ def check(run):
     flag_set = list(range(256)) if thorough else sorted(set([r | p | e | t for r in (0, 0x80) for p in (0, 0x40)
                                                              for e in (0, 0x20) for t in (0, 0x10)] + [0x0f, 0xff, 0x4f, 0x8f]))
     cases, meta = [], []
-    node = Node("srv.example.net", "example.net")
+    node = Node(NODE_HOST, NODE_REALM)     # identities as configured, capitals included
     app = Application(4, is_auth_application=True)
     app._node = node
     for cls in classes:
@@ -119,7 +121,7 @@ def check(run):
                 case = {"class": cls.__name__, "via": how, "session": with_sid, "proxy": with_proxy, "flag_bits": fbits}
                 n_gen += 1
                 run.count(1, [("gen", cls.__name__, how, with_sid, with_proxy, fbits)])
-                if a.origin_host != b"srv.example.net" or a.origin_realm != b"example.net":
+                if a.origin_host != NODE_HOST.encode() or a.origin_realm != NODE_REALM.encode():
                     run.violation("origin", case, [a.origin_host, a.origin_realm])
                 if hasattr(req, "session_id") and getattr(a, "session_id", None) != getattr(req, "session_id"):
                     run.violation("session-id-copied", case, getattr(a, "session_id", None))
@@ -134,8 +136,14 @@ def check(run):
                         run.violation("origin-on-wire", case, codes[:10])
                     if with_sid and "session_id" in declared and "session_id" in adecl and (263, 0) not in codes:
                         run.violation("session-on-wire", case, codes[:10])
-                    if with_proxy and "proxy_info" in declared and "proxy_info" in adecl and (284, 0) not in codes:
-                        run.violation("proxy-on-wire", case, codes[:10])
+                    # whatever the answer class's table says: Proxy-Info that was copied into the answer object has to be
+                    # among the bytes, once per element
+                    if with_proxy and "proxy_info" in declared and getattr(a, "proxy_info", None) and \
+                            codes.count((284, 0)) != len(req.proxy_info):
+                        run.violation("proxy-on-wire", case, codes[:10], what=f"{type(a).__name__}: the request's Proxy-Info is in the answer object "
+                                      "but not among its encoded AVPs")
+                    if with_sid and "session_id" in declared and getattr(a, "session_id", None) and (263, 0) not in codes:
+                        run.violation("session-on-wire", case, codes[:10])
                     ah = a.header
                     if (ah.hop_by_hop_identifier, ah.end_to_end_identifier, ah.command_flags & 0xb0) != (77, 88, 0):
                         run.violation("generated-header", case, list(hdr_tuple(ah)))
@@ -162,7 +170,7 @@ def check(run):
                 run.count(1, [("gen-untyped", code, label, fbits)])
                 have = {(c, v): [p for c2, _f, v2, p in got if (c2, v2) == (c, v)] for c, _f, v, _p in got}
                 problems = []
-                if have.get((264, 0)) != [b"srv.example.net"] or have.get((296, 0)) != [b"example.net"]:
+                if have.get((264, 0)) != [NODE_HOST.encode()] or have.get((296, 0)) != [NODE_REALM.encode()]:
                     problems.append("Origin-Host / Origin-Realm")
                 if "session" in label and have.get((263, 0)) != [b"sess;9;9"]:
                     problems.append("Session-Id")
